@@ -165,10 +165,42 @@ def pureSem (p : Nat) (m : Mem) : Op → List MV → Option (List MV)
   | .enumLift n, [.c x] => if x.bits < n then some [.v (.enum x.bits)] else none
   | _, _ => none
 
-def discOf (x : MV) : Option Nat :=
-  match x with
-  | .c d => some d.bits
+/-- a variant value from the results of its arm -/
+def variantOf (i : Nat) : List MV → Option MV
+  | [] => some (.v (.variant i none))
+  | [.v x] => some (.v (.variant i (some x)))
   | _ => none
+
+def listOf (xs : List MV) : Option MV := (vals xs).map fun vs => .v (.list vs)
+
+def entryOf : List MV → Option MV
+  | [.v x, .v y] => some (.v (.record [x, y]))
+  | _ => none
+
+/-- meaning of a pure instruction given its evaluated operands and an evaluator for its blocks
+(`bev i frame` = results of block `i` under the fresh frame); all results -/
+def opSem (p : Nat) (m : Mem) (bev : Nat → Frame → Option (List MV)) : Op → List MV → Option (List MV)
+  -- lowering of variants with pure arms: run the arm of the active case
+  | .variantLower _ _, [.v (.variant i pv)] | .optionLower _, [.v (.variant i pv)]
+  | .resultLower _, [.v (.variant i pv)] => bev i { payload := pv.map .v }
+  -- lifting of variants: the discriminant selects the arm, out of range traps
+  | .variantLift n, [.c d] =>
+      if d.bits < n then ((bev d.bits {}).bind (variantOf d.bits)).map ([·]) else none
+  | .optionLift, [.c d] | .resultLift, [.c d] =>
+      if d.bits < 2 then ((bev d.bits {}).bind (variantOf d.bits)).map ([·]) else none
+  -- lists lifted element by element
+  | .listLift e, [.c a, .c n] =>
+      if a.bits % alignment p e != 0 then none else
+      ((forRange n.bits fun i =>
+          (bev 0 { base := some (a.bits + i * elemSize p e) }).bind fun rs => rs[0]?).bind listOf).map ([·])
+  | .mapLift kt vt, [.c a, .c n] =>
+      if a.bits % alignment p (.tuple [kt, vt]) != 0 then none else
+      ((forRange n.bits fun i =>
+          (bev 0 { base := some (a.bits + i * elemSize p (.tuple [kt, vt])) }).bind entryOf).bind listOf).map ([·])
+  | .flistLiftMem e n, [.c a] =>
+      ((forRange n fun i =>
+          (bev 0 { base := some (a.bits + i * elemSize p e) }).bind fun rs => rs[0]?).bind listOf).map ([·])
+  | o, xs => pureSem p m o xs
 
 mutual
 /-- value of an expression -/
@@ -183,72 +215,14 @@ def eval (env : Env) (m : Mem) : Expr → Option MV
   | .base l => ((frameAt env l).base).map fun a => .c ⟨ptrFT env.p, a⟩
   | .i32 v => some (.c ⟨.i32, v⟩)
   | .zero t => some (.c ⟨t.erase env.p, 0⟩)
-  | .cast c e =>
-      match eval env m e with
-      | some (.c x) => some (.c (castSem env.p c x))
-      | _ => none
+  | .cast c e => (eval env m e).bind fun x => x.core?.map fun x => .c (castSem env.p c x)
   | .res k o args => ((env.lets.find? (·.1 == keyOf o args)).bind fun r => r.2[k]?)
   | .op o args blocks k =>
-      match evalList env m args with
-      | none => none
-      | some xs =>
-        match o, xs with
-        -- lowering of variants with pure arms: run the arm of the active case
-        | .variantLower _ _, [.v (.variant i pv)] | .optionLower _, [.v (.variant i pv)]
-        | .resultLower _, [.v (.variant i pv)] =>
-            (evalBlockAt env m blocks i { payload := pv.map .v }).bind (·[k]?)
-        -- lifting of variants: discriminant selects the arm, out of range traps
-        | .variantLift n, [.c d] =>
-            if d.bits < n then
-              (evalBlockAt env m blocks d.bits {}).bind fun rs =>
-                match rs with
-                | [] => some (.v (.variant d.bits none))
-                | [.v x] => some (.v (.variant d.bits (some x)))
-                | _ => none
-            else none
-        | .optionLift, [.c d] | .resultLift, [.c d] =>
-            if d.bits < 2 then
-              (evalBlockAt env m blocks d.bits {}).bind fun rs =>
-                match rs with
-                | [] => some (.v (.variant d.bits none))
-                | [.v x] => some (.v (.variant d.bits (some x)))
-                | _ => none
-            else none
-        -- lists lifted element by element
-        | .listLift e, [.c a, .c n] =>
-            if a.bits % alignment env.p e != 0 then none else
-            match blocks with
-            | [[r]] =>
-                (forRange n.bits fun i =>
-                  eval (env.enter (env.frames.length) { base := some (a.bits + i * elemSize env.p e) }) m r
-                ).bind fun xs => (vals xs).map fun vs => .v (.list vs)
-            | _ => none
-        | .mapLift kt vt, [.c a, .c n] =>
-            if a.bits % alignment env.p (.tuple [kt, vt]) != 0 then none else
-            match blocks with
-            | [[rk, rv]] =>
-                (forRange n.bits fun i =>
-                  let env' := env.enter (env.frames.length)
-                    { base := some (a.bits + i * elemSize env.p (.tuple [kt, vt])) }
-                  match eval env' m rk, eval env' m rv with
-                  | some (.v x), some (.v y) => some (.v (.record [x, y]))
-                  | _, _ => none
-                ).bind fun xs => (vals xs).map fun vs => .v (.list vs)
-            | _ => none
-        | .flistLiftMem e n, [.c a] =>
-            match blocks with
-            | [[r]] =>
-                (forRange n fun i =>
-                  eval (env.enter (env.frames.length) { base := some (a.bits + i * elemSize env.p e) }) m r
-                ).bind fun xs => (vals xs).map fun vs => .v (.list vs)
-            | _ => none
-        | o, xs => (pureSem env.p m o xs).bind (·[k]?)
+      (evalList env m args).bind fun xs =>
+        (opSem env.p m (fun i f => evalBlockAt env m blocks i f) o xs).bind (·[k]?)
 def evalList (env : Env) (m : Mem) : List Expr → Option (List MV)
   | [] => some []
-  | e :: es =>
-      match eval env m e, evalList env m es with
-      | some x, some xs => some (x :: xs)
-      | _, _ => none
+  | e :: es => (eval env m e).bind fun x => (evalList env m es).map fun xs => x :: xs
 /-- results of the `i`-th pure block evaluated under a fresh frame -/
 def evalBlockAt (env : Env) (m : Mem) : List (List Expr) → Nat → Frame → Option (List MV)
   | [], _, _ => none
@@ -273,91 +247,86 @@ def MSt.setMem (s : MSt) (m : Mem) : MSt := { s with st := { s.st with mem := m 
 def Env.bind (env : Env) (o : Op) (args : List Expr) (rs : List MV) : Env :=
   { env with lets := (keyOf o args, rs) :: env.lets }
 
+/-- meaning of an effectful instruction given its evaluated operands and a runner for its blocks
+(`brun i frame s` = results and final state of block `i` under the fresh frame): results and state -/
+def execOp (p : Nat) (callResults ifaceResult : List MV)
+    (brun : Nat → Frame → MSt → Option (List MV × MSt)) (s : MSt) : Op → List MV → Option (List MV × MSt)
+  | .store k off, [.c v, .c a] =>
+      some ([], s.setMem (s.st.mem.storeLE (a.bits + off.at p) v.bits (storeWidth p k)))
+  | .stringLower r, [.v (.str bs)] =>
+      let (ptr, s) := s.alloc bs.length 1
+      let s := s.setMem (storeBytes s.st.mem ptr bs)
+      let s := if r then s else { s with borrowed := (ptr, bs.length, 1) :: s.borrowed }
+      some ([.c (pcv p ptr), .c (pcv p bs.length)], s)
+  | .listCanonLower e r, [.v (.list vs)] =>
+      let (ptr, s) := s.alloc (vs.length * elemSize p e) (alignment p e)
+      let s := { s with st := storeElems p e vs ptr s.st }
+      let s := if r then s else { s with borrowed := (ptr, vs.length * elemSize p e, alignment p e) :: s.borrowed }
+      some ([.c (pcv p ptr), .c (pcv p vs.length)], s)
+  | .listLower e r, [.v (.list vs)] =>
+      let (ptr, s) := s.alloc (vs.length * elemSize p e) (alignment p e)
+      let s := if r then s else { s with borrowed := (ptr, vs.length * elemSize p e, alignment p e) :: s.borrowed }
+      (foldRange vs.length s fun i s =>
+        (brun 0 { elem := (vs[i]?).map .v, base := some (ptr + i * elemSize p e) } s).map (·.2)
+      ).map fun s => ([.c (pcv p ptr), .c (pcv p vs.length)], s)
+  | .mapLower kt vt r, [.v (.list es)] =>
+      let esz := elemSize p (.tuple [kt, vt])
+      let (ptr, s) := s.alloc (es.length * esz) (alignment p (.tuple [kt, vt]))
+      let s := if r then s else { s with borrowed := (ptr, es.length * esz, alignment p (.tuple [kt, vt])) :: s.borrowed }
+      (foldRange es.length s fun i s =>
+        match es[i]? with
+        | some (.record [x, y]) =>
+            (brun 0 { key := some (.v x), val := some (.v y), base := some (ptr + i * esz) } s).map (·.2)
+        | _ => none
+      ).map fun s => ([.c (pcv p ptr), .c (pcv p es.length)], s)
+  | .flistLowerMem e n, [.v (.list vs), .c a] =>
+      if vs.length ≠ n then none else
+      (foldRange n s fun i s =>
+        (brun 0 { elem := (vs[i]?).map .v, base := some (a.bits + i * elemSize p e) } s).map (·.2)
+      ).map fun s => ([], s)
+  | .variantLower _ _, [.v (.variant i pv)] | .optionLower _, [.v (.variant i pv)]
+  | .resultLower _, [.v (.variant i pv)] => brun i { payload := pv.map .v } s
+  | .malloc size align, [] =>
+      let (ptr, s) := s.alloc (size.at p) (align.at p)
+      some ([.c (pcv p ptr)], s)
+  | .dealloc size align, [.c a] =>
+      some ([], { s with freed := (a.bits, size.at p, align.at p) :: s.freed })
+  | .deallocString, [.c a, .c n] => some ([], { s with freed := (a.bits, n.bits, 1) :: s.freed })
+  | .deallocList e, [.c a, .c n] =>
+      (foldRange n.bits s fun i s =>
+        (brun 0 { base := some (a.bits + i * elemSize p e) } s).map (·.2)
+      ).map fun s => ([], { s with freed := (a.bits, n.bits * elemSize p e, alignment p e) :: s.freed })
+  | .deallocMap kt vt, [.c a, .c n] =>
+      let esz := elemSize p (.tuple [kt, vt])
+      (foldRange n.bits s fun i s =>
+        (brun 0 { base := some (a.bits + i * esz) } s).map (·.2)
+      ).map fun s => ([], { s with freed := (a.bits, n.bits * esz, alignment p (.tuple [kt, vt])) :: s.freed })
+  | .deallocVariant n, [.c d] =>
+      if d.bits < n then (brun d.bits {} s).map fun (_, s) => ([], s) else none
+  | .dropHandle _, [.v (.handle h)] => some ([], { s with dropped := h :: s.dropped })
+  | .callWasm _ _, xs => some (callResults, { s with calls := ("CallWasm", xs) :: s.calls })
+  | .callInterface _ _ _, xs => some (ifaceResult, { s with calls := ("CallInterface", xs) :: s.calls })
+  | .ret _, xs => some ([], { s with calls := ("Return", xs) :: s.calls })
+  | .asyncTaskReturn _, xs => some ([], { s with calls := ("AsyncTaskReturn", xs) :: s.calls })
+  | .flush _, xs => some (xs, s)
+  | _, _ => none
+
 mutual
 /-- execute one statement: returns the environment extended with its results, and the new state -/
 def exec (env : Env) (s : MSt) : Stmt → Option (Env × MSt)
   | .eff o args blocks =>
-    match evalList env s.st.mem args with
-    | none => none
-    | some xs =>
-      let p := env.p
-      let lvl := env.frames.length
-      let done (rs : List MV) (s : MSt) : Option (Env × MSt) := some (env.bind o args rs, s)
-      match o, xs, blocks with
-      | .store k off, [.c v, .c a], _ =>
-          done [] (s.setMem (s.st.mem.storeLE (a.bits + off.at p) v.bits (storeWidth p k)))
-      | .stringLower r, [.v (.str bs)], _ =>
-          let (ptr, s) := s.alloc bs.length 1
-          let s := s.setMem (storeBytes s.st.mem ptr bs)
-          let s := if r then s else { s with borrowed := (ptr, bs.length, 1) :: s.borrowed }
-          done [.c (pcv p ptr), .c (pcv p bs.length)] s
-      | .listCanonLower e r, [.v (.list vs)], _ =>
-          let (ptr, s) := s.alloc (vs.length * elemSize p e) (alignment p e)
-          let s := { s with st := storeElems p e vs ptr s.st }
-          let s := if r then s else { s with borrowed := (ptr, vs.length * elemSize p e, alignment p e) :: s.borrowed }
-          done [.c (pcv p ptr), .c (pcv p vs.length)] s
-      | .listLower e r, [.v (.list vs)], [(ss, _)] =>
-          let (ptr, s) := s.alloc (vs.length * elemSize p e) (alignment p e)
-          let s := if r then s else { s with borrowed := (ptr, vs.length * elemSize p e, alignment p e) :: s.borrowed }
-          (foldRange vs.length s fun i s =>
-            (execStmts (env.enter lvl { elem := (vs[i]?).map .v, base := some (ptr + i * elemSize p e) }) s ss).map (·.2)
-          ).bind fun s => done [.c (pcv p ptr), .c (pcv p vs.length)] s
-      | .mapLower kt vt r, [.v (.list es)], [(ss, _)] =>
-          let esz := elemSize p (.tuple [kt, vt])
-          let (ptr, s) := s.alloc (es.length * esz) (alignment p (.tuple [kt, vt]))
-          let s := if r then s else { s with borrowed := (ptr, es.length * esz, alignment p (.tuple [kt, vt])) :: s.borrowed }
-          (foldRange es.length s fun i s =>
-            match es[i]? with
-            | some (.record [x, y]) =>
-                (execStmts (env.enter lvl { key := some (.v x), val := some (.v y), base := some (ptr + i * esz) }) s ss).map (·.2)
-            | _ => none
-          ).bind fun s => done [.c (pcv p ptr), .c (pcv p es.length)] s
-      | .flistLowerMem e n, [.v (.list vs), .c a], [(ss, _)] =>
-          if vs.length ≠ n then none else
-          (foldRange n s fun i s =>
-            (execStmts (env.enter lvl { elem := (vs[i]?).map .v, base := some (a.bits + i * elemSize p e) }) s ss).map (·.2)
-          ).bind fun s => done [] s
-      | .variantLower _ _, [.v (.variant i pv)], blocks | .optionLower _, [.v (.variant i pv)], blocks
-      | .resultLower _, [.v (.variant i pv)], blocks =>
-          (execBlockAt env s blocks i { payload := pv.map .v }).bind fun (rs, s) => done rs s
-      | .malloc size align, [], _ =>
-          let (ptr, s) := s.alloc (size.at p) (align.at p)
-          done [.c (pcv p ptr)] s
-      | .dealloc size align, [.c a], _ =>
-          done [] { s with freed := (a.bits, size.at p, align.at p) :: s.freed }
-      | .deallocString, [.c a, .c n], _ =>
-          done [] { s with freed := (a.bits, n.bits, 1) :: s.freed }
-      | .deallocList e, [.c a, .c n], [(ss, _)] =>
-          (foldRange n.bits s fun i s =>
-            (execStmts (env.enter lvl { base := some (a.bits + i * elemSize p e) }) s ss).map (·.2)
-          ).bind fun s => done [] { s with freed := (a.bits, n.bits * elemSize p e, alignment p e) :: s.freed }
-      | .deallocMap kt vt, [.c a, .c n], [(ss, _)] =>
-          let esz := elemSize p (.tuple [kt, vt])
-          (foldRange n.bits s fun i s =>
-            (execStmts (env.enter lvl { base := some (a.bits + i * esz) }) s ss).map (·.2)
-          ).bind fun s => done [] { s with freed := (a.bits, n.bits * esz, alignment p (.tuple [kt, vt])) :: s.freed }
-      | .deallocVariant n, [.c d], blocks =>
-          if d.bits < n then (execBlockAt env s blocks d.bits {}).bind fun (_, s) => done [] s else none
-      | .dropHandle _, [.v (.handle h)], _ => done [] { s with dropped := h :: s.dropped }
-      | .callWasm _ _, xs, _ => done env.callResults { s with calls := ("CallWasm", xs) :: s.calls }
-      | .callInterface _ _ _, xs, _ => done env.ifaceResult { s with calls := ("CallInterface", xs) :: s.calls }
-      | .ret _, xs, _ => done [] { s with calls := ("Return", xs) :: s.calls }
-      | .asyncTaskReturn _, xs, _ => done [] { s with calls := ("AsyncTaskReturn", xs) :: s.calls }
-      | .flush _, xs, _ => done xs s
-      | _, _, _ => none
+      (evalList env s.st.mem args).bind fun xs =>
+        (execOp env.p env.callResults env.ifaceResult (fun i f s => execBlockAt env s blocks i f) s o xs).map
+          fun (rs, s') => (env.bind o args rs, s')
 def execStmts (env : Env) (s : MSt) : List Stmt → Option (Env × MSt)
   | [] => some (env, s)
-  | st :: rest =>
-      match exec env s st with
-      | some (env', s') => execStmts env' s' rest
-      | none => none
+  | st :: rest => (exec env s st).bind fun (env', s') => execStmts env' s' rest
 /-- run the `i`-th block under a fresh frame; its results are evaluated in the block's environment -/
 def execBlockAt (env : Env) (s : MSt) : List (List Stmt × List Expr) → Nat → Frame → Option (List MV × MSt)
   | [], _, _ => none
   | (ss, rs) :: _, 0, f =>
-      match execStmts (env.enter env.frames.length f) s ss with
-      | some (env', s') => (evalList env' s'.st.mem rs).map fun xs => (xs, s')
-      | none => none
+      (execStmts (env.enter env.frames.length f) s ss).bind fun (env', s') =>
+        (evalList env' s'.st.mem rs).map fun xs => (xs, s')
   | _ :: bs, i + 1, f => execBlockAt env s bs i f
 end
 
